@@ -148,7 +148,7 @@ func (srv *Srv) flush(req *SrvReq) {
 	conn.Lock()
 	r := conn.reqs[tag]
 	if r != nil {
-		req.flushreq = r.flushreq
+		req.flushnext = r.flushreq
 		r.flushreq = req
 	}
 	conn.Unlock()
